@@ -22,6 +22,8 @@ import c11_worlds as W
 # "11111" = /repo with fixes/C11-*.diff applied.  Flip a digit to 0 (and list the finding in known_findings.d/C11.json)
 # if a fix is not taken.
 FLAGS = os.environ.get("C11_FLAGS", "11111")
+# development switch: treat the classes of switched-off repairs as listed findings (to validate the model of the pinned tree)
+PINNED_OK = bool(os.environ.get("C11_PINNED_OK"))
 FLAG_NAMES = ["order", "encid", "isrc", "eqids", "ext"]
 FINDING_OF_FLAG = {"encid": "C11-component-encapsulation-id", "isrc": "C11-import-source-shared",
                    "eqids": "C11-equivalence-ids-lost", "ext": "C11-external-equivalence", "order": "C11-reset-order"}
@@ -169,7 +171,7 @@ def run(ctx):
 
     def finding_or_viol(flagname, text, what, c, extra):
         """a mismatch that belongs to the class of a repair that is switched off in FLAGS"""
-        if not fx[flagname] and ctx.known_finding(FINDING_OF_FLAG[flagname], text):
+        if not fx[flagname] and (ctx.known_finding(FINDING_OF_FLAG[flagname], text) or PINNED_OK):
             return
         viol(what, c, extra)
 
@@ -186,7 +188,7 @@ def run(ctx):
             hist["crash_predicted"] += 1
             if cl.startswith("CRASH("):
                 # only reachable with ext=0: the pinned tree dereferences null for a parent-less / foreign-rooted target
-                if not ctx.known_finding(FINDING_OF_FLAG["ext"], "Model::clone() crashes: an equivalent variable is outside the model (%s)" % cl):
+                if not (ctx.known_finding(FINDING_OF_FLAG["ext"], "Model::clone() crashes: an equivalent variable is outside the model (%s)" % cl) or PINNED_OK):
                     viol("library crashes in Model::clone()", c, {"impl": cl})
             else:
                 viol("model predicts a crash, library returns", c, {"impl": cl[:2000]})
